@@ -29,6 +29,8 @@ import (
 	"io"
 	"math/big"
 	"net"
+	"os"
+	"path/filepath"
 	"reflect"
 	"runtime"
 	"sort"
@@ -68,6 +70,54 @@ type c18PKI struct {
 	srv      map[string]*c18Cred // server certificate kinds
 	cli      map[string]*c18Cred // client certificate kinds ("none" absent)
 	spare    *c18Cred            // an unrelated key (key "mismatch")
+
+	mu     sync.Mutex
+	minted time.Time // when the validity-boundary certificates were minted
+}
+
+// Validity-boundary kinds: "justexpired" (NotAfter = mint - c18Margin) can never become valid;
+// "almostvalid" (NotBefore = mint + c18Margin) would become valid c18Margin after minting. A run
+// lasts well under that, and to be independent of the machine's speed the certificate is minted
+// again whenever a cell asks for it more than c18Remint after the last minting: the distance of
+// "now" to NotBefore is always within [c18Margin - c18Remint - one cell, c18Margin].
+const (
+	c18Margin = 2 * time.Minute
+	c18Remint = 40 * time.Second
+)
+
+func (p *c18PKI) mintBoundary(now time.Time) {
+	good := []string{"collector.example"}
+	goodIP := []net.IP{net.ParseIP("127.0.0.1")}
+	p.srv["justexpired"] = c18Mint(17, p.ca1, false, now.Add(-3*time.Hour), now.Add(-c18Margin), good, goodIP)
+	p.srv["almostvalid"] = c18Mint(18, p.ca1, false, now.Add(c18Margin), now.Add(3*time.Hour), good, goodIP)
+	p.cli["justexpired"] = c18Mint(23, p.ca1, false, now.Add(-3*time.Hour), now.Add(-c18Margin), nil, nil)
+	p.minted = now
+}
+
+// server / client return the credential of a kind (nil, false: no certificate)
+func (p *c18PKI) server(kind string) *c18Cred {
+	p.mu.Lock()
+	defer p.mu.Unlock()
+	if kind == "almostvalid" {
+		if now := time.Now(); now.Sub(p.minted) > c18Remint {
+			p.mintBoundary(now)
+		}
+	}
+	c, ok := p.srv[kind]
+	if !ok {
+		panic("server certificate kind " + kind)
+	}
+	return c
+}
+
+func (p *c18PKI) client(kind string) (*c18Cred, bool) {
+	p.mu.Lock()
+	defer p.mu.Unlock()
+	c, ok := p.cli[kind]
+	if !ok && kind != "none" {
+		panic("client certificate kind " + kind)
+	}
+	return c, ok
 }
 
 func c18Mint(id int, parent *c18Cred, isCA bool, nb, na time.Time, dns []string, ips []net.IP) *c18Cred {
@@ -136,6 +186,7 @@ func c18NewPKI() *c18PKI {
 	p.cli["otherca"] = c18Mint(21, p.ca2, false, ok0, ok1, nil, nil)
 	p.cli["expired"] = c18Mint(22, p.ca1, false, now.Add(-3*h), now.Add(-h), nil, nil)
 	p.spare = c18Mint(99, nil, false, ok0, ok1, nil, nil)
+	p.mintBoundary(now)
 	return p
 }
 
@@ -153,10 +204,32 @@ func (p *c18PKI) caPEM(kind string) []byte {
 	case "ca12":
 		return append(append([]byte{}, p.ca1.certPEM...), p.ca2.certPEM...)
 	case "leaf":
-		return p.srv["selfsigned"].certPEM
+		return p.server("selfsigned").certPEM
+	// CA material from which no certificate parses (x509.CertPool.AppendCertsFromPEM = false)
+	case "der": // the DER encoding instead of PEM
+		return append([]byte{}, p.ca1.cert.Raw...)
+	case "keyfile": // well-formed PEM of the wrong block type (the CA's key file instead of its certificate)
+		return p.ca1.keyPEM
+	case "truncated": // a CERTIFICATE block with valid base64 that is not a certificate
+		return pem.EncodeToMemory(&pem.Block{Type: "CERTIFICATE", Bytes: p.ca1.cert.Raw[:len(p.ca1.cert.Raw)/2]})
+	case "empty": // empty but not nil
+		return []byte{}
 	}
 	panic("ca kind " + kind)
 }
+
+// collector CACert of a hsC / hsR cell: "unset" nil, "set" CA1, else a kind of caPEM
+func (p *c18PKI) collCA(cca string) []byte {
+	switch cca {
+	case "unset":
+		return nil
+	case "set":
+		return p.ca1.certPEM
+	}
+	return p.caPEM(cca)
+}
+
+var c18UnusableCA = []string{"garbage", "der", "keyfile", "truncated", "empty"}
 func c18CertPEM(leaf *c18Cred, kind string) []byte {
 	switch kind {
 	case "nil":
@@ -481,7 +554,7 @@ func (p *c18PKI) exporterInput(proto, addr string, etls bool, sname string, ccer
 		CheckConnInterval: time.Hour}
 	if etls {
 		t := &exporter.ExporterTLSClientConfig{ServerName: sname, CAData: p.ca1.certPEM}
-		if c, ok := p.cli[ccert]; ok {
+		if c, ok := p.client(ccert); ok {
 			t.CertData, t.KeyData = c.certPEM, c.keyPEM
 		}
 		in.TLSClientConfig = t
@@ -519,7 +592,7 @@ func c18DTLS10ClientHello() []byte {
 // ---------------------------------------------------------------------------------- cells
 // hsE: real exporter vs harness server
 func (p *c18PKI) cellHsE(proto, scert, sname, ccert, cca, ver string) string {
-	sc := p.srv[scert]
+	sc := p.server(scert)
 	rx := make(chan bool, 1)
 	var addr string
 	var closer io.Closer
@@ -612,11 +685,8 @@ func (p *c18PKI) cellHsE(proto, scert, sname, ccert, cca, ver string) string {
 
 // hsC: harness client vs real collector
 func (p *c18PKI) cellHsC(proto, scert, ccert, cca, ver string) string {
-	sc := p.srv[scert]
-	var ca []byte
-	if cca == "set" {
-		ca = p.ca1.certPEM
-	}
+	sc := p.server(scert)
+	ca := p.collCA(cca)
 	gp := map[string]string{"tls": "tcp", "dtls": "udp"}[proto]
 	col := c18StartColl(gp, true, ca, sc.certPEM, sc.keyPEM)
 	defer col.stop()
@@ -626,7 +696,7 @@ func (p *c18PKI) cellHsC(proto, scert, ccert, cca, ver string) string {
 	msg := c18TemplateMsg(9)
 	if proto == "tls" {
 		cfg := &tls.Config{InsecureSkipVerify: true, MinVersion: tls.VersionTLS10, MaxVersion: c18Vers[ver]}
-		if c, ok := p.cli[ccert]; ok {
+		if c, ok := p.client(ccert); ok {
 			cfg.Certificates = []tls.Certificate{c.tlsCert}
 		}
 		d := &net.Dialer{Timeout: c18Ceiling}
@@ -658,7 +728,7 @@ func (p *c18PKI) cellHsC(proto, scert, ccert, cca, ver string) string {
 		return "hs=no ver=- delivered=" + ShowBool(col.delivered(nil, c18QuietWait))
 	}
 	cfg := &dtls.Config{InsecureSkipVerify: true, ConnectContextMaker: c18Ctx}
-	if c, ok := p.cli[ccert]; ok {
+	if c, ok := p.client(ccert); ok {
 		cfg.Certificates = []tls.Certificate{c.tlsCert}
 	}
 	conn, err := dtls.Dial("udp", raddr, cfg)
@@ -672,11 +742,8 @@ func (p *c18PKI) cellHsC(proto, scert, ccert, cca, ver string) string {
 
 // hsR: real exporter vs real collector
 func (p *c18PKI) cellHsR(proto string, etls, cenc bool, scert, sname, ccert, cca string) string {
-	sc := p.srv[scert]
-	var ca []byte
-	if cca == "set" {
-		ca = p.ca1.certPEM
-	}
+	sc := p.server(scert)
+	ca := p.collCA(cca)
 	gp := map[string]string{"tls": "tcp", "dtls": "udp"}[proto]
 	col := c18StartColl(gp, cenc, ca, sc.certPEM, sc.keyPEM)
 	defer col.stop()
@@ -697,11 +764,11 @@ func (p *c18PKI) cellHsR(proto string, etls, cenc bool, scert, sname, ccert, cca
 
 // xerr: real exporter with broken material vs a real encrypted collector
 func (p *c18PKI) cellXerr(proto, ca, cert, key string) string {
-	sc := p.srv["trusted"]
+	sc := p.server("trusted")
 	gp := map[string]string{"tls": "tcp", "dtls": "udp"}[proto]
 	col := c18StartColl(gp, true, nil, sc.certPEM, sc.keyPEM)
 	defer col.stop()
-	leaf := p.cli["trusted"]
+	leaf, _ := p.client("trusted")
 	in := exporter.ExporterInput{CollectorAddress: col.addr, CollectorProtocol: gp, CheckConnInterval: time.Hour,
 		TLSClientConfig: &exporter.ExporterTLSClientConfig{ServerName: "collector.example", CAData: p.caPEM(ca),
 			CertData: c18CertPEM(leaf, cert), KeyData: p.keyPEM(leaf, key)}}
@@ -713,7 +780,7 @@ func (p *c18PKI) cellXerr(proto, ca, cert, key string) string {
 // xdec: transport decision of the exporter, against a collector of the base protocol that is
 // encrypted iff the exporter is
 func (p *c18PKI) cellXdec(etls bool, proto string) string {
-	sc := p.srv["trusted"]
+	sc := p.server("trusted")
 	base := "tcp"
 	if strings.HasPrefix(proto, "udp") {
 		base = "udp"
@@ -727,7 +794,7 @@ func (p *c18PKI) cellXdec(etls bool, proto string) string {
 
 // cdec: transport decision of the collector, probed from outside
 func (p *c18PKI) cellCdec(cenc bool, proto string) string {
-	sc := p.srv["trusted"]
+	sc := p.server("trusted")
 	start := func() *c18Coll {
 		cp, err := collector.InitCollectingProcess(collector.CollectorInput{
 			Address: "127.0.0.1:0", Protocol: proto, MaxBufferSize: 65535, IsEncrypted: cenc,
@@ -800,7 +867,7 @@ func (p *c18PKI) cellCdec(cenc bool, proto string) string {
 }
 
 func (p *c18PKI) cellCcfg(sname, ca, cert, key string) string {
-	leaf := p.cli["trusted"]
+	leaf, _ := p.client("trusted")
 	cfg, err := exporter.VerifClientTLSConfig(&exporter.ExporterTLSClientConfig{
 		ServerName: c18Names[sname], CAData: p.caPEM(ca), CertData: c18CertPEM(leaf, cert), KeyData: p.keyPEM(leaf, key)})
 	if err != nil {
@@ -810,7 +877,7 @@ func (p *c18PKI) cellCcfg(sname, ca, cert, key string) string {
 }
 
 func (p *c18PKI) cellScfg(ca, cert, key string) string {
-	leaf := p.srv["trusted"]
+	leaf := p.server("trusted")
 	cp, err := collector.InitCollectingProcess(collector.CollectorInput{Address: "127.0.0.1:0", Protocol: "tcp",
 		IsEncrypted: true, CACert: p.caPEM(ca), ServerCert: c18CertPEM(leaf, cert), ServerKey: p.keyPEM(leaf, key)})
 	if err != nil {
@@ -859,10 +926,64 @@ func (p *c18PKI) runCell(t []string) (obs string) {
 	return "bad-case"
 }
 
+// ---------------------------------------------------------------------------------- host trust store
+// c18HostTrustStore makes the host trust store, as THIS process sees it, consist of exactly one
+// CA: the harness's other CA (CA2), the issuer of the "otherca" certificates. crypto/x509 reads
+// SSL_CERT_FILE / SSL_CERT_DIR once, lazily, the first time system roots are needed (a
+// verification with a nil pool, x509.SystemCertPool); nothing has needed them before runC18
+// starts. The unchanged code always sets RootCAs / ClientCAs explicitly, so the host store is
+// never consulted and nothing changes; code that lets host roots in (SystemCertPool as the
+// base of RootCAs, RootCAs left nil) now completes a session with an "otherca" server, which
+// the property forbids. The variables are set with os.Setenv for the harness process only.
+// Returns the function that writes the CA once it is minted, and the clean-up.
+func c18HostTrustStore() (install func(ca *c18Cred), cleanup func()) {
+	base := ""
+	for i, a := range os.Args { // next to the output file (the run directory of bin/check)
+		if (a == "-out" || a == "--out") && i+1 < len(os.Args) {
+			base = filepath.Dir(os.Args[i+1])
+		} else if strings.HasPrefix(a, "-out=") {
+			base = filepath.Dir(strings.TrimPrefix(a, "-out="))
+		}
+	}
+	dir, err := os.MkdirTemp(base, "c18-hostroots-")
+	if err != nil {
+		if dir, err = os.MkdirTemp("", "c18-hostroots-"); err != nil {
+			panic(err)
+		}
+	}
+	if dir, err = filepath.Abs(dir); err != nil {
+		panic(err)
+	}
+	emptyDir := filepath.Join(dir, "certs.d")
+	if err := os.Mkdir(emptyDir, 0o755); err != nil {
+		panic(err)
+	}
+	file := filepath.Join(dir, "host-roots.pem")
+	if err := os.WriteFile(file, nil, 0o644); err != nil {
+		panic(err)
+	}
+	os.Setenv("SSL_CERT_FILE", file)
+	os.Setenv("SSL_CERT_DIR", emptyDir)
+	return func(ca *c18Cred) {
+			if err := os.WriteFile(file, ca.certPEM, 0o644); err != nil {
+				panic(err)
+			}
+		}, func() {
+			os.RemoveAll(dir)
+		}
+}
+
 // ---------------------------------------------------------------------------------- generator
 func runC18(env *Env) {
+	install, cleanup := c18HostTrustStore() // before anything can load the system roots
+	defer cleanup()
 	registry.LoadRegistry()
 	p := c18NewPKI()
+	install(p.ca2)
+	if sys, err := x509.SystemCertPool(); err != nil || sys == nil || !sys.Equal(c18Pool(p.ca2)) {
+		// the premise of the "otherca" cells (otherca = issued by a CA of the host trust store)
+		panic(fmt.Sprintf("C18: host trust store of the harness process is not {CA2}: %v", err))
+	}
 	var cases [][]string
 	if len(env.Replay) > 0 {
 		for _, l := range env.Replay {
@@ -883,13 +1004,13 @@ func runC18(env *Env) {
 		}
 		// -- configuration reflection
 		for _, sn := range []string{"set", "unset", "ip"} {
-			for _, ca := range []string{"nil", "garbage", "ca1", "ca12", "leaf"} {
+			for _, ca := range []string{"nil", "garbage", "ca1", "ca12", "leaf", "der", "keyfile", "truncated", "empty"} {
 				for _, ck := range [][2]string{{"nil", "nil"}, {"nil", "ok"}, {"ok", "ok"}, {"ok", "mismatch"}, {"ok", "nil"}, {"ok", "garbage"}, {"empty", "ok"}, {"garbage", "ok"}} {
 					add("cfg/client", "ccfg", sn, ca, ck[0], ck[1])
 				}
 			}
 		}
-		for _, ca := range []string{"nil", "garbage", "ca1", "ca12"} {
+		for _, ca := range []string{"nil", "garbage", "ca1", "ca12", "der", "keyfile", "truncated", "empty"} {
 			for _, ck := range [][2]string{{"ok", "ok"}, {"ok", "mismatch"}, {"ok", "nil"}, {"ok", "garbage"}, {"empty", "ok"}, {"garbage", "ok"}} {
 				add("cfg/server", "scfg", ca, ck[0], ck[1])
 			}
@@ -904,12 +1025,12 @@ func runC18(env *Env) {
 			}
 		}
 		// -- the matrix of the property's quantifier
-		scerts := []string{"trusted", "otherca", "selfsigned", "expired", "future", "wrongsan", "nosan"}
+		scerts := []string{"trusted", "otherca", "selfsigned", "expired", "future", "justexpired", "almostvalid", "wrongsan", "nosan"}
 		snames := []string{"set", "unset", "mismatch"}
 		if env.Thorough() { // IP-literal ServerNames over the whole matrix as well
 			snames = append(snames, "ip", "badip")
 		}
-		ccerts := []string{"none", "trusted", "otherca", "expired"}
+		ccerts := []string{"none", "trusted", "otherca", "expired", "justexpired"}
 		ccas := []string{"set", "unset"}
 		vers := []string{"11", "12", "13"}
 		for _, pr := range []string{"tls", "dtls"} {
@@ -943,8 +1064,20 @@ func runC18(env *Env) {
 					}
 				}
 			}
+			// a collector whose client-CA material yields no certificate: it must not come up as an
+			// endpoint that serves anybody (TLS: Start returns without listening; DTLS: CACert is not
+			// used at all - off-property observation)
+			for _, ca := range c18UnusableCA {
+				for _, cc := range []string{"none", "otherca", "trusted"} {
+					for _, v := range []string{"12", "13"} {
+						add("unusable-client-ca/hsC-"+pr, "hsC", pr, "trusted", cc, ca, v)
+					}
+					add("unusable-client-ca/hsR-"+pr, "hsR", pr, "T", "T", "trusted", "set", cc, ca)
+				}
+				add("unusable-client-ca/hsR-"+pr, "hsR", pr, "F", "T", "trusted", "set", "none", ca)
+			}
 			// broken PEM material
-			for _, ca := range []string{"nil", "garbage", "ca1"} {
+			for _, ca := range []string{"nil", "garbage", "ca1", "der", "keyfile", "truncated", "empty"} {
 				for _, ck := range [][2]string{{"nil", "nil"}, {"ok", "ok"}, {"ok", "mismatch"}, {"garbage", "ok"}, {"ok", "nil"}, {"nil", "ok"}} {
 					add("material/"+pr, "xerr", pr, ca, ck[0], ck[1])
 				}
@@ -984,7 +1117,7 @@ func runC18(env *Env) {
 			env.Count("offprop/dtls-session-without-name-check(empty-or-IP-ServerName)")
 		case c[0] == "hsR" && c[2] == "F" && c[3] == "F" && strings.HasSuffix(o, "delivered=T"):
 			env.Count("offprop/certificates-supplied-with-IsEncrypted-false:plain-session")
-		case c[0] == "hsC" && c[1] == "dtls" && c[4] == "set" && c[3] != "trusted" && strings.HasSuffix(o, "delivered=T"):
+		case c[0] == "hsC" && c[1] == "dtls" && c[4] != "unset" && (c[3] != "trusted" || c[4] != "set") && strings.HasSuffix(o, "delivered=T"):
 			env.Count("offprop/dtls-collector-ignores-CACert:client-without-CA-certificate-delivered")
 		case c[0] == "xdec" && strings.Contains(o, "conn=nil"):
 			env.Count("offprop/TLSClientConfig-with-protocol-not-tcp-udp:nil-connection-no-error")
